@@ -447,7 +447,7 @@ esl_histogram_SetTail(ESL_HISTOGRAM *h, double phi, double *ret_newmass)
   else   h->phi  = esl_histogram_Bin2LBound(h, h->cmin);
 
   h->z    = 0;
-  for (b = h->imin; b < h->cmin; b++)
+  for (b = h->imin; b < h->cmin && b <= h->imax; b++)  /* cmin may lie beyond the allocated bins when phi > bmax */
     h->z += h->obs[b];
   h->Nc         = h->n;		/* (redundant) */
   h->No         = h->n - h->z;
